@@ -824,6 +824,19 @@ pub fn c09(c: &mut Ctx) {
                 }
             }
         }
+        // a send into a full mailbox is never dropped: a tell that found every slot definitely occupied and
+        // returned Ok although the actor took nothing out of the mailbox in the meantime cannot have got a slot
+        for o in h.ops.iter().filter(|o| o.a == Some(a) && o.tag.is_tell() && o.ret_ok()) {
+            let (inv, ret) = (o.inv_seq, o.ret.as_ref().unwrap().0);
+            if inv >= horizon || occ_lo_at(inv) < cap {
+                continue;
+            }
+            let took_something = ar.hooks.iter().any(|(s, _, e)| *s > inv && *s < ret && matches!(e, HookEv::HEnter(_) | HookEv::StopEnter(_)));
+            c.chk.hit("C09");
+            if !took_something {
+                c.v("C09", "accepted-without-slot", ret, format!("actor {a}: tell of message {:?} returned Ok although all {cap} slots were definitely occupied when it was invoked and the actor took no message until it returned (the message was dropped)", o.mid));
+            }
+        }
         // full mailbox waits (does not fail): a tell that returned Err while the actor was demonstrably alive afterwards
         for o in h.ops.iter().filter(|o| o.a == Some(a) && o.tag == OpTag::Tell) {
             if let Some(Res::ErrSend) = o.res() {
@@ -881,17 +894,17 @@ pub fn c10(c: &mut Ctx) {
                 }
             }
         }
-        let ms = match (o.tag, o.ms) {
-            (OpTag::TellT | OpTag::AskT, Some(ms)) => ms,
+        let us = match (o.tag, o.us) {
+            (OpTag::TellT | OpTag::AskT, Some(us)) => us,
             _ => continue,
         };
-        if ms == FOREVER {
+        if us == FOREVER {
             if let Some(Res::ErrTimeout { .. }) = o.res() {
                 c.v("C10", "timeout-early", o.ret.as_ref().unwrap().0, "operation with Duration::MAX timed out".into());
             }
             continue;
         }
-        let deadline = o.inv_t + ms * 1000;
+        let deadline = o.inv_t.saturating_add(us);
         let tol = 1000; // tokio's timer granularity (1 ms), late side only
         match &o.ret {
             Some((seq, t, _, res, _)) => {
@@ -950,7 +963,7 @@ pub fn c10(c: &mut Ctx) {
             None => {
                 if concl && o.cancelled.is_none() {
                     c.chk.hit("C10");
-                    c.v("C10", "timeout-never-fired", o.inv_seq, format!("{:?} with a {ms} ms timeout is still pending at quiescence", o.tag));
+                    c.v("C10", "timeout-never-fired", o.inv_seq, format!("{:?} with a {us} us timeout is still pending at quiescence", o.tag));
                 }
             }
         }
